@@ -54,11 +54,14 @@ def check(run):
     # ---- (a) the property's predicate and the independent reference, on the implementation
     nontrivial = set()
     evaluations = 0
+    ratio_search = None
     for r in recs:
         k = r["kind"]
         if k == "seg" or k == "segx":
             evaluations += 1
             seglib.judge_segment(r, findings, nontrivial)
+        elif k == "ratio_search":
+            ratio_search = r
         elif k == "refuse":
             evaluations += 1
             if r["len"] > 131071 and (r["enc_ok"] or r["written"] != 0 or r["panic"]):
@@ -72,6 +75,14 @@ def check(run):
             if r["crc"] != r["ref"]:
                 findings.append({"kind": "crc32-differs-from-reference", "payload": r["desc"], "crc": r["crc"], "reference": r["ref"],
                                  "what": "ChecksumIEEE differs from the reflected CRC-32 over FA 2D 55 CA || payload"})
+
+    if recs:
+        # fail closed if the family "compressed size on and around the payload size" is not there
+        deltas = {r["cmp_len"] - r["desc"]["len"] for r in recs if r["kind"] == "seg" and r["comp"] == "lz4" and r.get("enc_ok") and r["desc"]["len"] > 0}
+        if not ratio_search or not {-1, 0, 1} <= deltas:
+            broken.append("harness c06 ran no lz4 segment with compressed length = payload length - 1 / = / + 1 (search: %s, deltas seen: %s)" % (
+                ratio_search, sorted(d for d in deltas if -2 <= d <= 2)))
+    run.coverage["compressed_size_vs_payload_size_search"] = ratio_search
 
     # ---- (b) correspondence: model vs implementation on the same inputs
     terms, skipped = [], 0
@@ -119,7 +130,7 @@ def check(run):
     run.coverage["traces_validated_against_impl"] = len(terms)
     run.coverage["distinct_nontrivial"] = len(nontrivial)
     run.coverage["rule"] = ("implementation: EncodeSegment/DecodeSegment on payload descriptors (pattern x length x seed; lengths 0..1024 at every small boundary, "
-                            "65536, 131070, 131071; all-zero / repeated / ramp / periodic / pseudo-random / half-random; text-like, mixed and row-like content "
+                            "65536, 131070, 131071; payloads whose LZ4 block is exactly as long as / one byte shorter / one byte longer than the payload, found by a search at harness start; all-zero / repeated / ramp / periodic / pseudo-random / half-random; text-like, mixed and row-like content "
                             "through LZ4) x self-contained flag x {nil compressor, lz4.Compressor{}}; refusal at 131072 and above; damaged inputs for the decoder; "
                             "non-trivial = a distinct (payload, flag, compressor) whose round trip was observed, or a distinct refusal; "
                             "correspondence = the same descriptors expanded in Gallina and run through the model inside coqc (vm_compute), compared on "
